@@ -28,7 +28,9 @@ from simkit.engine import Engine
 
 NAMES = ("xa", "xb", "xc", "xd")
 PDIRS = ("p0", "p1", "p2", "p3", "missing")
-KINDS = ("exec", "exec", "exec", "noexec", "dir", "ln_exec", "ln_noexec", "ln_broken", "ln_dir")
+KINDS = ("exec", "exec", "exec", "noexec", "dir", "ln_exec", "ln_noexec", "ln_broken", "ln_dir", "mode", "mode")
+# permission-class cases: the run child owns its files, so only the OWNER bits decide (0655: others may, the owner may not)
+MODES = (0o755, 0o700, 0o500, 0o100, 0o655, 0o645, 0o611, 0o055, 0o011, 0o001, 0o644, 0o000, 0o711)
 ENTRY_FORMS = ("@/p0", "@/p1", "@/p2", "@/p3", "@/p1/", "@/lnk", "@/missing", "@/p2/../p2", "rel", "./rel", ".", "", "@/p0/xa", "@/p3", "@/p0")
 T0 = 1_700_000_000.0
 
@@ -63,7 +65,7 @@ class C08(Engine):
         "real": ["procs.executables locate_executable / locate_file_in_path_env / locate_relative_path / clear_paths / get_paths / is_executable_in_posix", "commands_cache.CommandsCache (update_cache, _update_paths_cache, _iter_binaries, locate_binary, __contains__, iter_commands, cache file load/save)", "procs.specs.SubprocSpec.build -> resolve_binary_loc", "completers.commands.complete_command (sampled)", "environ.Env / EnvPath ($PATH edits, detype)", "real file system, real execvp and /bin/sh for oracle cross-checks, kernel permission checks (uid 65534)"],
         "stub": ["clock: directory mtimes are written with os.utime from the simulated clock", "session restart = a new CommandsCache over the same cache directory"],
     }
-    expected_probes = ["lookup_found", "lookup_notfound", "shadow_noexec_skipped", "shadow_dir_skipped", "shadow_broken_skipped", "symlink_entry_wins", "symlinked_pathdir", "relative_pathdir", "empty_entry", "missing_dir_entry", "duplicate_entry", "path_unset", "cwd_decoy_present", "explicit_path", "same_tick_change", "chmod_change", "clock_backwards", "cache_restart", "cache_file_corrupt", "dir_unreadable", "dir_vanished", "oracle_crosscheck_exec", "oracle_crosscheck_sh", "cache_disabled", "symlink_repointed"]
+    expected_probes = ["lookup_found", "lookup_notfound", "shadow_noexec_skipped", "shadow_dir_skipped", "shadow_broken_skipped", "symlink_entry_wins", "symlinked_pathdir", "relative_pathdir", "empty_entry", "missing_dir_entry", "duplicate_entry", "path_unset", "cwd_decoy_present", "explicit_path", "same_tick_change", "chmod_change", "clock_backwards", "cache_restart", "cache_file_corrupt", "dir_unreadable", "dir_vanished", "oracle_crosscheck_exec", "oracle_crosscheck_sh", "cache_disabled", "symlink_repointed", "permission_class_mode"]
 
     def warmup(self):
         procworld.warm(extra_traced=())
@@ -100,7 +102,7 @@ class C08(Engine):
         if r < 0.50:
             return {"k": "rm", "dir": d, "name": nm}
         if r < 0.58:
-            return {"k": "chmod", "dir": d, "name": nm, "x": rng.random() < 0.5}
+            return {"k": "chmod", "dir": d, "name": nm, "x": rng.random() < 0.5, "m": rng.randrange(len(MODES)) if rng.random() < 0.4 else None}
         if r < 0.61:
             return {"k": "chmod_target", "name": nm, "x": rng.random() < 0.5}
         if r < 0.64:
@@ -210,10 +212,13 @@ class C08(Engine):
         self.serial += 1
         tgt = os.path.join(self.R, "outside", f"t{self.serial}")
         try:
-            if kind in ("exec", "noexec"):
+            if kind in ("exec", "noexec", "mode"):
                 with open(p, "w") as f:
                     f.write(f"#!/bin/sh\necho ID:{self.serial}\n")
-                os.chmod(p, 0o755 if kind == "exec" else 0o644)
+                mode = 0o755 if kind == "exec" else 0o644 if kind == "noexec" else MODES[(self.serial * 7 + len(name)) % len(MODES)]
+                os.chmod(p, mode)
+                if kind == "mode":
+                    self.probes["permission_class_mode"] = self.probes.get("permission_class_mode", 0) + (mode & 0o111 != 0 and not mode & 0o100)
             elif kind == "dir":
                 os.mkdir(p)
             elif kind in ("ln_exec", "ln_noexec"):
@@ -575,7 +580,7 @@ class C08(Engine):
             p = os.path.join(d, op["name"])
             try:
                 if os.path.isfile(p):
-                    os.chmod(p, 0o755 if op["x"] else 0o644)
+                    os.chmod(p, (0o755 if op["x"] else 0o644) if op.get("m") is None else MODES[op["m"] % len(MODES)])
                 else:
                     return
             except OSError:
